@@ -136,27 +136,24 @@ fn time_lit(rng: &mut Rng) -> TimeLit {
             _ => {
                 // fractional milliseconds (a float literal with the ms suffix)
                 if rng.chance(0.15) {
-                    let v = *[0.5f32, 1.5, 2.5, 12.5, 62.5, 0.25, 187.5].get(rng.usize_below(7)).unwrap();
-                    let a = v * 0.001f32;
-                    let b = v / 1000.0f32;
-                    if a.to_bits() == b.to_bits() {
-                        return TimeLit {
-                            text: format!("{v:?}ms"),
-                            seconds: b,
-                        };
-                    }
-                    continue;
+                    let v = *[0.5f32, 1.5, 2.5, 12.5, 62.5, 0.25, 187.5, 0.75, 333.5].get(rng.usize_below(9)).unwrap();
+                    // N ms is N / 1000 s: the f32 nearest to that (IEEE division of two exactly
+                    // representable operands is correctly rounded)
+                    return TimeLit {
+                        text: format!("{v:?}ms"),
+                        seconds: v / 1000.0f32,
+                    };
                 }
-                // milliseconds; only values for which both readings of the documentation agree
-                // bit-for-bit (N * 0.001 == N / 1000 in f32)
-                let n = *[50i64, 100, 125, 250, 375, 500, 750, 1000, 1250, 1500, 2000, 2500, 3000]
-                    .get(rng.usize_below(13))
-                    .unwrap();
-                let a = n as f32 * 0.001f32;
+                // milliseconds: round values and arbitrary ones ("700ms" is the f32 0.7, the
+                // duration a builder user writes as `.duration_seconds(0.7)`)
+                let n = if rng.chance(0.5) {
+                    *[50i64, 100, 125, 250, 375, 500, 700, 750, 900, 1000, 1250, 1500, 1800, 2000, 2500, 3000]
+                        .get(rng.usize_below(16))
+                        .unwrap()
+                } else {
+                    rng.range(1, 4000)
+                };
                 let b = n as f32 / 1000.0f32;
-                if a.to_bits() != b.to_bits() {
-                    continue;
-                }
                 let text = if n >= 1000 && rng.chance(0.5) {
                     format!("{}_{:03}ms", n / 1000, n % 1000)
                 } else {
@@ -210,9 +207,8 @@ fn gen_tl(rng: &mut Rng, allow_default_body: bool, need_keyframe: bool) -> Tl {
                         let n = rng.range(2, 198) as f32 / 2.0;
                         (format!("{n:?}"), n)
                     };
-                    if (n * 0.01f32).to_bits() == (n / 100.0f32).to_bits() {
-                        break (Pos::Pct(text, n / 100.0), (n * 10.0) as u32);
-                    }
+                    // N% is the position N / 100: the f32 nearest to that
+                    break (Pos::Pct(text, n / 100.0), (n * 10.0) as u32);
                 }
             }
         };
@@ -447,6 +443,8 @@ fn gen_animator(rng: &mut Rng) -> Animator {
     let n_arms = rng.range(1, 3) as usize;
     let mut arms: Vec<Arm> = Vec::new();
     let mut used_states: Vec<usize> = Vec::new();
+    let mut counted_so_far = 0usize;
+    const COUNTS: [&str; 5] = ["0", "1", "2", "3", "4"];
     for _ in 0..n_arms {
         if free.is_empty() {
             break;
@@ -538,12 +536,19 @@ fn gen_animator(rng: &mut Rng) -> Animator {
         }
         let mut counted_value = None;
         let mut user_variable = None;
-        if !n_sites.is_empty() && rng.chance(0.3) {
+        // (once one arm counts its evaluation, later arms mostly do too: the order of evaluation
+        // across arms becomes observable)
+        if !n_sites.is_empty() && rng.chance(if counted_so_far > 0 { 0.85 } else { 0.3 }) {
             let site = n_sites[rng.usize_below(n_sites.len())];
-            let value = if rng.chance(0.5) && !features.iter().any(|f| f.starts_with("counted-keyframe-value")) {
+            let value = if rng.chance(if counted_so_far > 0 { 0.9 } else { 0.5 }) {
+                // arms are evaluated once each, in the order in which they are written
                 counted_value = Some(site);
+                counted_so_far += 1;
                 features.push(if states.len() > 1 { "counted-keyframe-value-in-multi-state-arm" } else { "counted-keyframe-value" });
-                "1"
+                if counted_so_far > 1 {
+                    features.push("counted-keyframe-values-in-several-arms");
+                }
+                COUNTS[counted_so_far]
             } else {
                 user_variable = Some(site);
                 features.push("user-variable-named-like-a-macro-local");
